@@ -275,6 +275,12 @@ func c08Semantics(r *lp.Run, rng *lp.Rand) {
 		e.toks(&etoks)
 		var oracle *regexp2.Regexp
 		subs := subjects
+		if e.nullableLoopDepth() > 2 {
+			// three or more nested loops over nullable bodies: the model's matcher is exponential in that depth even
+			// on the empty subject; such expressions are compared through the converter text only
+			r.Count("rematch-skipped "+p, "semantics-skipped:nested-nullable-loops", false)
+			continue
+		}
 		if d := e.nullableLoopDepth(); d > 0 && (L > 2 || d > 1) {
 			// shorter subjects (see hasNullableLoop): length ≤ 2 for one nullable loop, ≤ 1 for nested ones
 			lim := 2
